@@ -225,4 +225,9 @@ def run(rep):
             okg = all(v is not None and pq.same(norm_geo(v), want_geo[k_]) for k_, v in geo.items())
             rep.check(okg, "R07.d", "gis/grid.py", s.func.name, f"{s.shim.name}: geometry arguments are the grid's own attributes, bound to the parameters of the same meaning",
                       "; ".join(f"{k_}={show(v)[:40] if v else None}" for k_, v in geo.items()), line=s.call.lineno)
+    # Grid.neighbours is part of the numbering contract: the clauses C06 decides about c_neighbours are obligations here too
+    from ..core import borrow
+    nb_ = borrow(rep, "C06", "R07.e", "c_neighbours: slot layout, off-grid sides and centre slot (clauses decided for C06)",
+                 lambda e: (e.func or "") == "c_neighbours")
+    rep.floor("c_neighbours clauses taken over from C06", nb_, 3)
     return EXPLANATION
